@@ -76,7 +76,9 @@ CHECKS = {
               "every model of the JSON fragment (any tree, any relation cardinalities, any names, any attribute values) the reader "
               "applied to what the writer produced returns the same model with correct back pointers — plain equality — and "
               "therefore any number of cycles; the fuel (document depth) the reader model uses is proved sufficient; objects are read by key, not position "
-              "(entries of any object with distinct keys may be permuted at any depth, except inside the two values stored raw). The JSON text "
+              "(entries of any object with distinct keys may be permuted at any depth, except inside the two values stored raw), keys "
+              "the format does not define are ignored at all six kinds of object, n-ary AND/OR/XOR terms are left folds and a nested "
+              "first operand may be merged anywhere. The JSON text "
               "layer (json.dumps/loads) is an external-library hypothesis validated by parsing the implementation's file on every case."),
         note="Coq kernel; extraction/driver; harness; json module round trip; no axioms",
         technique="Coq proof (round-trip by induction over the tree) + differential correspondence on writer and reader",
@@ -161,7 +163,8 @@ CHECKS = {
     "C01": dict(
         text=("Theorems over the Gallina models of uvl_writer.py / uvl_reader.py, for every model of the UVL fragment [uvl_ok] "
               "(any size; all relation kinds, group and feature cardinalities incl. *, typed features, nested attribute values, "
-              "names needing quotes, constraints over logical / comparison / arithmetic / aggregate operators): the reader applied "
+              "names needing quotes, constraints over logical / comparison / arithmetic / aggregate operators incl. qualified "
+              "feature.attribute references whose parts need quotes): the reader applied "
               "to the writer's syntax tree returns the normal form [uvl_norm m] with correct back pointers; the normal form keeps "
               "the whole tree unchanged and maps each constraint to a logically equivalent one, stays in the fragment, is idempotent, "
               "and is written as the byte-identical text (so any number of cycles changes nothing). End to end for ANY parser "
